@@ -72,7 +72,7 @@ def tod_us(h, mi, s):
 
 
 NOTP = {"rep": "none", "y": 0, "a": 0, "b": 0, "prec": "hms", "hh": 0, "mi": 0, "ss": 0,
-        "sod": 0, "us": 0, "frac": False, "zh": 0, "zm": 0, "xd": 0}
+        "sod": 0, "us": 0, "fu": 0, "frac": False, "zh": 0, "zm": 0, "xd": 0}
 
 
 def proj_tp(p):
@@ -96,11 +96,13 @@ def proj_tp(p):
     if frac and int(h) < 24 and tus >= DAY * MEG:
         tus = DAY * MEG - 1      # rounding of 23:59:59.9999996 must not fabricate 24:00
     sod, us = divmod(tus, MEG)
+    last = s if s is not None else (mi if mi is not None else h)      # fraction of the last unit, in micro-units
+    fu = int(round((Fraction(last) - int(last)) * MEG))
     tz = p._time_zone
     return {"rep": rep, "y": I(p._year), "a": I(a), "b": I(b), "prec": prec,
             "hh": I(int(h)), "mi": I(int(mi)) if mi is not None else -1,
             "ss": I(int(s)) if s is not None else -1,
-            "sod": I(sod), "us": I(us), "frac": bool(frac),
+            "sod": I(sod), "us": I(us), "fu": I(fu), "frac": bool(frac),
             "zh": I(tz._hours), "zm": I(tz._minutes),
             "xd": I(p._num_expanded_year_digits)}
 
